@@ -8,6 +8,7 @@ import sys, os, json, copy
 sys.path.insert(0, os.path.dirname(os.path.abspath(__file__)))
 from lib import *
 import c01
+from model import norm
 
 S = lambda t, q=0: ('s', t, q)
 UNKV = ('u',)
@@ -108,7 +109,7 @@ def cases():
             lo = marks[id(window_el)][0]
             hi = marks[id(next_el)][0] if next_el is not None else text.count('\n') + 1
             window = (lo, hi)
-        out.append((cls, label, text, code, window, expect, opts))
+        out.append((cls, label, text, code, window, expect, opts, tree_scalar_names(doc)))
 
     def top_positions(doc):
         """(block elements list, index) for first / middle / last element of the first block, and inside its first frame"""
@@ -479,11 +480,40 @@ def cases():
     return out
 
 
+def tree_scalar_names(doc):
+    """normalised data names that the element tree presents outside loop_ constructs (items, and raw text planted between elements)"""
+    names, unknown = set(), []
+
+    def walk(els):
+        for el in els:
+            if el[0] == 'item':
+                names.add(norm(el[1]))
+            elif el[0] == 'raw':
+                if 'loop_' in el[1].lower().split():
+                    unknown.append(1)       # raw text that contains a loop: which names are scalars cannot be told here
+                for t in el[1].split():
+                    if t.startswith('_'):
+                        names.add(norm(t))
+            elif el[0] == 'frame':
+                walk(el[2])
+    for b in doc:
+        walk(b[2])
+    return None if unknown else names
+
+
+def without_loops(expect, scal):
+    def cont(c):
+        return {'loops': [l for l in c['loops'] if all(norm(n) in scal for n in l[0])], 'frames': {k: cont(v) for k, v in c['frames'].items()}}
+    return {k: cont(v) for k, v in expect.items()}
+
+
 def work(chunk):
     ex = worker_exec('fast')
     ex.run(['reset', 'cif.new C0'])
     out = []
-    for cls, label, text, code, window, expect, opts in chunk:
+    for case in chunk:
+        cls, label, text, code, window, expect, opts = case[:7]
+        scal = case[7] if len(case) > 7 else None      # cases built from raw text: no handler variant
         try:
             a = ex.run(['bytes.set B0 %s' % text.encode('utf-8', 'surrogatepass').hex(), 'parse.reuse C0 B0 %s' % opts])[1]
         except Crash as c:
@@ -519,6 +549,22 @@ def work(chunk):
             want = c01.canon_exp_values(expect)
             if got != want:
                 out.append((cls, label, text, 'content after the documented recovery differs\n  parsed  : %s\n  expected: %s' % (json.dumps(got, default=str)[:900], json.dumps(want, default=str)[:900])))
+            # the same input with a handler that passes over every loop_ construct: what is stored outside the loops - before and,
+            # in particular, after them - must not depend on the defect's having been met while skipping
+            if scal is None:
+                continue
+            try:
+                b = ex.run(['parse.reuse C0 B0 %s skiploops=1' % opts])[0]
+            except Crash as c:
+                out.append((cls, label, text, 'with every loop skipped by a handler: crash/hang: %s %s' % (c, c.stderr[-600:])))
+                ex = worker_exec('fast')
+                ex.run(['reset', 'cif.new C0'])
+                continue
+            if scal is not None and isinstance(b, dict):
+                want2 = c01.canon_exp_values(without_loops(expect, scal))
+                got2 = c01.canon_dump(b['dump'])
+                if b['rc'] != 0 or got2 != want2:
+                    out.append((cls, label, text, 'with every loop skipped by a handler (rc %d) the content outside the loops differs\n  parsed  : %s\n  expected: %s' % (b['rc'], json.dumps(got2, default=str)[:900], json.dumps(want2, default=str)[:900])))
     return (len(chunk), out)
 
 
@@ -528,7 +574,7 @@ def main():
     cs = cases()
     # every host parses silently
     for hn, host in hosts().items():
-        cs.append(('defect-free host', hn, render(host)[0], None, (0, 0), content(host), ''))
+        cs.append(('defect-free host', hn, render(host)[0], None, (0, 0), content(host), '', tree_scalar_names(host)))
     total = 0
     classes = {}
     for c in cs:
